@@ -4,7 +4,7 @@ from .common import run_model, run_progs, run_value_machine, run_harvest
 FINISH = dict(rule="R1 MC_Ports (authority accessors of Level I); R3 random programs over the authority grid x all modifiers x "
                    "hostile arguments on both back ends; TLC evaluates C11.frame.<modifier> on (receiver, argument, result)")
 FIELDS = ["str", "val", "raw_user", "raw_password", "raw_host", "host_subcomponent", "explicit_port", "raw_path",
-          "raw_query_string", "raw_fragment"]
+          "raw_query_string", "raw_fragment", "user", "password", "host"]
 
 
 def run(out, sc, tier, seed):
